@@ -27,6 +27,13 @@ func VerifHarness_Layout() {
 
 	pos := NewPositionRange(L.lines, val, key.Column+2)
 	verifReach("end")
+	// on the unchanged code the positions are constants; when a change makes them depend on byte comparisons the
+	// case split keeps every obligation below a small query (the ranges are generous, outside = failure)
+	for i := range pos {
+		pos[i].Line = verifConcretize(pos[i].Line, -2, len(L.lines)+2)
+		pos[i].FirstColumn = verifConcretize(pos[i].FirstColumn, -2, 40)
+		pos[i].LastColumn = verifConcretize(pos[i].LastColumn, -2, 40)
+	}
 
 	n := pos.Len()
 	verifAssert(n >= L.content, "every value character up to the last non-newline one has a position")
